@@ -122,9 +122,11 @@ package bytes
 //@   ensures result == isUserTypeNameByte(c)
 //@   no_panic
 
+//@ pred isUserTypeNameText(d []byte) := len(d) >= 2 && d[0] == 64 && (forall i :: 1 <= i && i < len(d) ==> isUserTypeNameByte(d[i]))
+
 //@ func (Bytes).IsUserTypeName
-//@   property C05
-//@   ensures result == (len(b.data) >= 2 && b.data[0] == 64 && (forall i :: 1 <= i && i < len(b.data) ==> isUserTypeNameByte(b.data[i])))
+//@   property C05 C17
+//@   ensures result == isUserTypeNameText(b.data)
 //@   no_panic
 //@   loop#1 invariant -1 <= rangeindex && rangeindex < len(b.data) - 1 && len(b.data) >= 2 && b.data[0] == 64
 //@   loop#1 invariant forall i :: 1 <= i && i <= rangeindex + 1 ==> isUserTypeNameByte(b.data[i])
